@@ -150,8 +150,15 @@ func c13Expect(c c13Case) c13Model {
 		case "#len":
 			m.Skip = "length of $@ / $* is unspecified"
 		default:
-			if len(c.Args) >= 1 && null || null && !strings.HasPrefix(c.Op, ":") {
-				m.Skip = "whether $@ / $* is null or unset without non-empty positional parameters is unspecified"
+			// dash and bash agree: no parameters, or exactly one that is empty,
+			// is null; two or more parameters are not null even if all are empty
+			allEmpty := null
+			null = len(c.Args) == 0 || len(c.Args) == 1 && c.Args[0] == ""
+			if len(c.Args) == 0 && !strings.HasPrefix(c.Op, ":") {
+				m.Skip = "whether $@ / $* is set without positional parameters is unspecified (dash: set, bash: unset)"
+			}
+			if len(c.Args) >= 2 && allEmpty && sep == "" {
+				m.Skip = "$* of several empty parameters joined with nothing: null or not is unspecified"
 			}
 		}
 	}
@@ -460,8 +467,8 @@ func TestC13(t *testing.T) {
 		{"p", false, "", nil}, {"p", true, "", nil}, {"p", true, "valXl", nil}, {"p", true, "a b", nil}, {"p", true, "é日本", nil},
 		{"1", false, "", nil}, {"1", false, "", []string{""}}, {"1", false, "", []string{"valXl", "z"}}, {"2", false, "", []string{"q"}},
 		{"10", false, "", []string{"1", "2", "3", "4", "5", "6", "7", "8", "9", "ten"}},
-		{"@", false, "", nil}, {"@", false, "", []string{"a b", "c"}}, {"@", false, "", []string{"valXl"}},
-		{"*", false, "", nil}, {"*", false, "", []string{"a b", "c"}}, {"*", false, "", []string{"valXl"}},
+		{"@", false, "", nil}, {"@", false, "", []string{"a b", "c"}}, {"@", false, "", []string{"valXl"}}, {"@", false, "", []string{""}}, {"@", false, "", []string{"", ""}}, {"@", false, "", []string{"", "c"}},
+		{"*", false, "", nil}, {"*", false, "", []string{"a b", "c"}}, {"*", false, "", []string{"valXl"}}, {"*", false, "", []string{""}}, {"*", false, "", []string{"", ""}}, {"*", false, "", []string{"", "c"}},
 		{"#", false, "", []string{"x", "y"}}, {"?", false, "", nil}, {"0", false, "", nil}, {"!", false, "", nil}, {"$", false, "", nil}, {"-", false, "", nil},
 	}
 	wordsets := [][]wAtom{
